@@ -41,12 +41,50 @@ def default_shards(tier, n=None):
     return [{"i": i, "n": n, "tier": tier} for i in range(n)]
 
 
+class _cpu_slot:
+    """Machine-wide cap on concurrently running shard processes (one flock'ed slot file per core), so that several
+    checks started at the same time queue instead of thrashing.  Created on demand; no effect on a single check."""
+
+    DIR = os.environ.get("BCV_SLOT_DIR", "/tmp/bcv-slots")
+
+    def __enter__(self):
+        import fcntl
+
+        self.fh = None
+        try:
+            os.makedirs(self.DIR, exist_ok=True)
+        except OSError:
+            return self
+        while True:
+            for k in range(NCPU):
+                try:
+                    fh = open(os.path.join(self.DIR, f"slot{k}"), "a")
+                except OSError:
+                    return self
+                try:
+                    fcntl.flock(fh, fcntl.LOCK_EX | fcntl.LOCK_NB)
+                    self.fh = fh
+                    return self
+                except OSError:
+                    fh.close()
+            time.sleep(0.2)
+
+    def __exit__(self, *a):
+        if self.fh is not None:
+            self.fh.close()
+        return False
+
+
 def run_shards(pid, tier, seed, specs, timeout):
     work = os.path.join(env.WORK, f"run-{pid}-{os.getpid()}")
     os.makedirs(work, exist_ok=True)
     shard_py = os.path.join(VERIF, "bcv", "shard.py")
 
     def one(k_spec):
+        with _cpu_slot():
+            return _one(k_spec)
+
+    def _one(k_spec):
         k, spec = k_spec
         specf = os.path.join(work, f"spec{k}.json")
         outf = os.path.join(work, f"out{k}.json")
